@@ -122,7 +122,8 @@ class _World:
             self.gone.add(iid)
             if iid in self.flagged:
                 self.raised += 1
-                raise RuntimeError("digester failed for item %s" % iid)
+                from pbt.props._exc import make
+                raise make(iid, "digester failed for item %s" % iid)
             self.normal += 1
             return {"recycled-%s" % iid: iid}
 
@@ -132,7 +133,8 @@ class _World:
             self.gone.add(iid)
             if iid in self.flagged:
                 self.raised += 1
-                raise RuntimeError("toxic callback failed for item %s" % iid)
+                from pbt.props._exc import make
+                raise make(iid + 3, "toxic callback failed for item %s" % iid)
             self.normal += 1
 
         self.lys = lys_mod.Lysosome(max_queue_size=cfg["max_q"], auto_digest_threshold=cfg["auto"], retention_hours=1.0,
